@@ -55,6 +55,71 @@ class _Fields(dict):
         return isinstance(key, str) and not key.startswith("__") and not hasattr(self.cls, key)
 
 
+# methods that hand the object's buffers / attributes to an internal function: class -> (class module, method, function module,
+# function, {function parameter: ("arg", call parameter) | ("attr", attribute)}, how the result comes back)
+METHODS = {
+    "LookupLanguageModel": ("pydrobert.torch._lm", "calc_idx_log_probs", "pydrobert.torch._lm", "_lookup_calc_idx_log_probs",
+                            {"hist": ("arg", "hist"), "hidx": ("arg", "idx"), "offsets": ("attr", "offsets"), "ids": ("attr", "ids"), "logps": ("attr", "logps"), "logbs": ("attr", "logbs"),
+                             "sos": ("attr", "sos"), "V": ("attr", "vocab_size"), "N": ("attr", "max_ngram"), "G": ("attr", "max_ngram_nodes"), "S": ("attr", "max_direct_descendants")},
+                            "pair_with_argument:prev"),
+}
+
+
+def method_vc(clause, cls_name):
+    """like wrapper_vc, for a method with an explicit parameter map (the internal function's parameter names differ from the attributes)"""
+    import importlib
+
+    cmod, meth, fmod, fname, pmap, ret = METHODS[cls_name]
+
+    def thunk(I):
+        cls = getattr(importlib.import_module(cmod), cls_name)
+        fdef, mod = I.get_function(fmod, fname)
+        mdef, _ = I.get_function(cmod, cls_name + "." + meth)
+        call_params = [a.arg for a in mdef.args.posonlyargs + mdef.args.args][1:]
+        fparams = [a.arg for a in fdef.args.posonlyargs + fdef.args.args + fdef.args.kwonlyargs]
+        sent = {p: Sentinel("call:" + p) for p in call_params}
+        fields = _Fields()
+        fields.cls = cls
+        result = Sentinel("result")
+        calls = []
+
+        def contract(I2, args, kwargs):
+            fr = ip.Frame(mod)
+            I2.bind_args(fdef, fr, list(args), dict(kwargs))
+            calls.append(dict(fr.locals))
+            return result
+
+        I.contracts["%s.%s" % (fmod, fname)] = contract
+        obj = ip.SObj(cls, {}, cls_name)
+        obj.fields = fields
+        out = I.call(I.getattr(obj, meth), [sent[p] for p in call_params], {})
+        I.ex.ghost.update(calls=calls, sent=sent, fields=dict(fields), fparams=fparams, result=result)
+        return out
+
+    def post(p):
+        if not api.returns(p):
+            return False
+        g = p.ghost
+        if len(g["calls"]) != 1:
+            return [("function_called_exactly_once", False)]
+        got = g["calls"][0]
+        goals = [("parameter_map_covers_the_function_signature", set(g["fparams"]) == set(pmap))]
+        for name in g["fparams"]:
+            kind, src = pmap.get(name, (None, None))
+            want = g["sent"].get(src) if kind == "arg" else (g["fields"].get(src) if kind == "attr" else None)
+            goals.append(("param:%s<-%s" % (name, ("argument:" if kind == "arg" else "self.") + str(src)), want is not None and got.get(name) is want))
+        if ret.startswith("pair_with_argument:"):
+            a = ret.split(":", 1)[1]
+            goals.append(("result_returned_with_the_state_unchanged", isinstance(p.value, tuple) and len(p.value) == 2 and p.value[0] is g["result"] and p.value[1] is g["sent"][a]))
+        else:
+            goals.append(("result_returned_unchanged", p.value is g["result"]))
+        return goals
+
+    return VC(clause, "%s.%s -> %s" % (cls_name, meth, fname), cmod, cls_name + "." + meth, thunk, posts=[("forwards_every_parameter", post)], inputs={},
+              assumptions=["the internal function is replaced by a contract that records its bound arguments (its own behaviour: the property's other clauses)",
+                           "the object's buffers and attributes are opaque sentinels; the parameter map (which attribute feeds which parameter) is the contract: %s" % {k: v[1] for k, v in pmap.items()}])
+
+
 def wrapper_vc(clause, cls_name):
     import importlib
 
